@@ -20,8 +20,8 @@ import time
 import traceback
 
 VERIF = os.path.dirname(os.path.dirname(os.path.abspath(__file__)))
-LEAN = os.path.join(VERIF, 'lean')
-REPO = '/repo'
+LEAN = os.environ.get('SEDVERIF_LEAN') or os.path.join(VERIF, 'lean')
+REPO = os.environ.get('SEDVERIF_REPO') or '/repo'   # override only for mutation self-tests in scratch worktrees
 ALLOWED_AXIOMS = {'propext', 'Classical.choice', 'Quot.sound'}
 FORBIDDEN = re.compile(r'\b(sorry|admit|native_decide|bv_decide|implemented_by|unsafe)\b|^\s*axiom\s|maxHeartbeats\s+0\b', re.M)
 
